@@ -159,8 +159,11 @@ def run(tier: str, rep: Report):
                 files.append(f)
                 jobs[v].append(("encode.signatures_to_file", {"cases": [dict(c, id=c["id"] + ":" + v) for c in ch], "path": f}))
             sizes = [254, 255, 256, 257] + ([65535, 65536] if tier == "thorough" and v in ("38", "310") else [])
-            bt = [{"id": f"b:{kind}:{n_}:{v}", "n": n_, "kind": kind} for n_ in sizes for kind in ("names", "consts", "locals")
-                  if n_ < 1000 or kind == "names"]
+            # 257 entries are also decided directly (binds wk/encode.direct_event to the TLC verdict on the same data)
+            bt = [{"id": f"b:{kind}:{n_}:{v}", "n": n_, "kind": kind, "direct": False} for n_ in sizes if n_ < 1000
+                  for kind in ("names", "consts", "locals")]
+            bt += [{"id": f"b:{kind}:{n_}:{v}:direct", "n": n_, "kind": kind, "direct": True} for n_ in sizes if n_ == 257 or n_ > 1000
+                   for kind in ("names", "consts", "locals")]
             for ch in chunks(bt, 4):
                 k += 1
                 f = str(wd / f"big-{v}-{k}.ndjson")
